@@ -974,7 +974,7 @@ class FT:
                 FT.nheap = getattr(FT, 'nheap', 0) + 1
                 k = FT.nheap
                 d = self.define(dest, ret)
-                return ['{ static char heap__%d[%s]; static int heap_used__%d; __CPROVER_assert(!heap_used__%d, "verif: byte allocation site executed more than once"); heap_used__%d = 1; %s = (P)heap__%d; }' % (k, mm.group(1), k, k, k, d, k)]
+                return ['{ extern uint32_t verif_rt_section; static char heap__%d[%s]; static int heap_used__%d; __CPROVER_assert(!verif_rt_section, "C03 heap allocation (operator new[]) inside the realtime section"); __CPROVER_assert(!heap_used__%d, "verif: byte allocation site executed more than once"); heap_used__%d = 1; %s = (P)heap__%d; }' % (k, mm.group(1), k, k, k, d, k)]
         if callee_name:
             callee_name = M.aliases.get(callee_name, callee_name)
             USED_FUNCS.setdefault(callee_name, (ret, [a for a, _ in args], fnty))
